@@ -52,7 +52,7 @@ impl<'a> Gen<'a> {
                     std::mem::swap(&mut lo, &mut hi);
                 }
                 if lo == hi {
-                    hi = lo + 1.0;
+                    hi = lo + lo.abs().max(1.0); // lo + 1.0 is absorbed above 2^53
                 }
                 let form = self.r.below(4);
                 let init = match form {
@@ -106,8 +106,12 @@ impl<'a> Gen<'a> {
                 let mut entries: Vec<(Value, Value)> = Vec::new();
                 for _ in 0..ndefs {
                     let name = (*self.r.pick(TYPE_NAMES)).to_string();
+                    let key = s(&format!("typeDef {}", name));
+                    if entries.iter().any(|(k, _)| *k == key) {
+                        continue; // a mapping holds a key once; a second definition would replace the first in place
+                    }
                     let v = self.node(depth - 1);
-                    entries.push((s(&format!("typeDef {}", name)), v));
+                    entries.push((key, v));
                     if !self.defs.contains(&name) {
                         self.defs.push(name);
                     }
@@ -126,7 +130,16 @@ impl<'a> Gen<'a> {
                     if n > 1 {
                         let i = self.r.below(n);
                         let j = self.r.below(n);
+                        // definitions are read in document order (a definition sees the earlier ones);
+                        // members may go anywhere
+                        let order = |e: &Vec<(Value, Value)>| -> Vec<Value> {
+                            e.iter().filter(|(k, _)| k.as_str().map(|x| x.starts_with("typeDef ")).unwrap_or(false)).map(|(k, _)| k.clone()).collect()
+                        };
+                        let before = order(&entries);
                         entries.swap(i, j);
+                        if order(&entries) != before {
+                            entries.swap(i, j);
+                        }
                     }
                 }
                 for (k, v) in entries {
